@@ -130,6 +130,73 @@ theorem decode_is_identity_or_refusal (registered : List Nat) (m : AsgMsg) :
     exact ⟨o, ho, by simpa using hn⟩
   · left; simp
 
+/-! ### exactly once, over a whole run -/
+
+theorem run_append (c : Cfg) : ∀ (a b : List In) (st : St), run c st (a ++ b) = run c st a ++ run c (finalSt c st a) b := by
+  intro a
+  induction a with
+  | nil => intro b st; rfl
+  | cons i is ih => intro b st; simp only [List.cons_append, run, finalSt, ih]
+
+theorem run_length (c : Cfg) : ∀ (l : List In) (st : St), (run c st l).length = l.length := by
+  intro l
+  induction l with
+  | nil => intro st; rfl
+  | cons i is ih => intro st; simp only [run, List.length_cons, ih]
+
+/-- a known pipeline that is not complete stays known, and no payload on the way lists it as complete -/
+theorem known_while_incomplete (c : Cfg) : ∀ (pre : List In) (st : St) (x : Nat), x ∈ st.known → (∀ i ∈ pre, i.complete x = false) →
+    x ∈ (finalSt c st pre).known ∧ ∀ p ∈ run c st pre, ∀ q, p = some q → (x, true) ∉ q.other := by
+  intro pre
+  induction pre with
+  | nil => intro st x hx _; exact ⟨hx, fun p hp => by cases hp⟩
+  | cons i is ih =>
+    intro st x hx hc
+    have hci := hc i (by simp)
+    obtain ⟨i1, i2⟩ := ih _ x (known_until_reported_complete c st i.newP i.hasResults i.complete x hx hci) (fun j hj => hc j (by simp [hj]))
+    refine ⟨i1, fun p hp q hq => ?_⟩
+    simp only [run] at hp
+    rcases List.mem_cons.mp hp with rfl | hp'
+    · intro hin
+      unfold step at hq
+      split at hq
+      · simp at hq; subst hq
+        obtain ⟨y, _, e⟩ := List.mem_map.mp hin
+        simp only [Prod.mk.injEq] at e
+        rw [e.1] at e
+        rw [hci] at e
+        exact absurd e.2 (by simp)
+      · cases hq
+    · exact i2 p hp' q hq
+
+/-- **a pipeline that completes is reported as complete exactly once.**  Take any run of the bridge in which the known pipeline `x` is incomplete during the
+rounds `pre`, is complete from round `j` on, in which round the executor also returned a result (it always does when a pipeline completes:
+`C06.completion_comes_with_a_success_result_in_the_same_tick`), and does not arrive again.  Then no call before round `j` lists `x` as complete, round `j` makes a
+call and that call lists `x` as complete, and no call after round `j` mentions `x` at all. -/
+theorem completed_pipeline_is_reported_complete_exactly_once (c : Cfg) (st : St) (x : Nat) (pre post : List In) (j : In)
+    (hx : x ∈ st.known) (hpre : ∀ i ∈ pre, i.complete x = false) (hj : j.complete x = true) (hres : j.hasResults = true)
+    (hpost : ∀ i ∈ post, x ∉ i.newP) :
+    ∃ before q after, run c st (pre ++ j :: post) = before ++ some q :: after ∧ before.length = pre.length ∧
+      (∀ p ∈ before, ∀ q', p = some q' → (x, true) ∉ q'.other) ∧ (x, true) ∈ q.other ∧
+      (∀ p ∈ after, ∀ q', p = some q' → x ∉ q'.other.map (·.1)) := by
+  obtain ⟨k1, k2⟩ := known_while_incomplete c pre st x hx hpre
+  have hcall : mustCall c (finalSt c st pre) j.newP j.hasResults = true := by
+    unfold mustCall; simp [hres]
+  have hstep : (step c (finalSt c st pre) j.newP j.hasResults j.complete).2 =
+      some { tick := (finalSt c st pre).tick + 1, newP := j.newP, other := (finalSt c st pre).known.map (fun p => (p, j.complete p)) } := by
+    unfold step; simp only [hcall, ↓reduceIte]
+  refine ⟨run c st pre, { tick := (finalSt c st pre).tick + 1, newP := j.newP, other := (finalSt c st pre).known.map (fun p => (p, j.complete p)) },
+    run c (step c (finalSt c st pre) j.newP j.hasResults j.complete).1 post, ?_, ?_, k2, ?_, ?_⟩
+  · rw [run_append]
+    simp only [run]
+    rw [hstep]
+  · exact run_length c pre st
+  · exact List.mem_map.mpr ⟨x, k1, by rw [hj]⟩
+  · apply reported_complete_then_never_again c post _ x _ hpost
+    intro hin
+    have := complete_dropped_after_call c (finalSt c st pre) j.newP j.hasResults j.complete _ hstep x hin
+    rw [hj] at this; cases this
+
 example : (run { tps := 10, pollNum := 1, pollDen := 1 } {} [⟨[1, 2], false, fun _ => false⟩, ⟨[], false, fun _ => false⟩,
     ⟨[], true, fun p => p == 1⟩, ⟨[], false, fun p => p == 1⟩]).map (fun o => o.map (fun p => (p.tick, p.newP, p.other))) =
     [some (1, [1, 2], []), none, some (3, [], [(1, true), (2, false)]), none] := by decide
